@@ -148,6 +148,10 @@ func (c *scaleC) Exec(op string) string {
 		if !ok0 || !ok1 || !ok2 {
 			return "bad-op"
 		}
+		// gate scenarios: every replica of `w` waits (process_completed) for `o`, whose command is "gate"
+		if po.cmd == "gate" {
+			pw.deps = []string{"o"}
+		}
 		yml, ok := ProjectYAML(g, []*lProc{pw, po})
 		if !ok {
 			return "bad-op"
@@ -189,6 +193,22 @@ func (c *scaleC) Exec(op string) string {
 		}
 		for _, fc := range c.h.cmds {
 			if fc.alive && fc.conf != nil && fc.conf.ReplicaName == target {
+				fc.exit(0)
+				break
+			}
+		}
+		if q := c.quiesce(); q != "" {
+			return q
+		}
+		verif.S.TakeLog()
+		return c.dump("ok")
+	case len(w) == 1 && w[0] == "gexit":
+		// the gate's command exits: the replicas waiting for it are released
+		if c.h == nil || c.h.dead {
+			return "DEAD"
+		}
+		for _, fc := range c.h.cmds {
+			if fc.alive && fc.conf != nil && fc.conf.ReplicaName == "o" {
 				fc.exit(0)
 				break
 			}
@@ -286,11 +306,44 @@ func (c *scaleC) Exec(op string) string {
 	return "bad-op"
 }
 
+// genGate: scale requests and project updates while every replica of `w` is still Pending (it waits
+// for `o`); then the gate opens: exactly the replicas that exist then are launched, once each, and
+// none of those removed in the meantime.
+func (c *scaleC) genGate(r *rand.Rand, n int, emit func(string)) {
+	for k := 0; k < n; k++ {
+		start := []int{1, 2, 3, 9, 10, 11}[r.Intn(6)]
+		g := genLVars(r, []string{"V", "G"})
+		pw := strings.Join([]string{"w", strconv.Itoa(start), Hex([]string{"", "ns1"}[r.Intn(2)]), "0",
+			Hex("run {{.PC_REPLICA_NUM}} " + genTpl(r, true)), "-", "-", Hex(genTpl(r, true)), "~", "~", genLVars(r, []string{"V", "L"})}, ";")
+		po := "o;0;-;0;" + Hex("gate") + ";-;-;-;~;~;~"
+		emit(fmt.Sprintf("scinit %s %s %s", g, pw, po))
+		cur := start
+		steps := 1 + r.Intn(4)
+		for i := 0; i < steps; i++ {
+			pc := types.ProcessConfig{Name: "w", Replicas: cur, ReplicaNum: r.Intn(cur)}
+			if r.Intn(5) == 0 {
+				nn := 1 + r.Intn(4)
+				emit(fmt.Sprintf("scupd %d", nn))
+				cur = nn
+				continue
+			}
+			nn := []int{1, 2, 3, 5, 9, 10, 11, 12}[r.Intn(8)]
+			emit(fmt.Sprintf("scale %s %d", Hex(pc.CalculateReplicaName()), nn))
+			cur = nn
+		}
+		emit("gexit")
+		// and on after the gate has opened
+		pc := types.ProcessConfig{Name: "w", Replicas: cur, ReplicaNum: 0}
+		emit(fmt.Sprintf("scale %s %d", Hex(pc.CalculateReplicaName()), 1+r.Intn(12)))
+	}
+}
+
 func (c *scaleC) Gen(r *rand.Rand, tier string, emit func(string)) {
 	hist := 25
 	if tier == "thorough" {
 		hist = 400
 	}
+	c.genGate(r, hist/3+2, emit)
 	for k := 0; k < hist; k++ {
 		start := []int{1, 1, 2, 3, 9, 10, 11}[r.Intn(7)]
 		g := genLVars(r, []string{"V", "G"})
